@@ -127,8 +127,20 @@ func (i *Interpreter) ProcessFunctionSubroutine(sub *ast.SubroutineDeclaration, 
 		case *ast.LogStatement:
 			err = i.ProcessLogStatement(t)
 		case *ast.SyntheticStatement:
+			if !i.ctx.Scope.Is(context.ErrorScope) {
+				return value.Null, NONE, exception.Runtime(
+					&t.Token,
+					"synthetic statement is only available in ERROR scope",
+				)
+			}
 			err = i.ProcessSyntheticStatement(t)
 		case *ast.SyntheticBase64Statement:
+			if !i.ctx.Scope.Is(context.ErrorScope) {
+				return value.Null, NONE, exception.Runtime(
+					&t.Token,
+					"synthetic.base64 statement is only available in ERROR scope",
+				)
+			}
 			err = i.ProcessSyntheticBase64Statement(t)
 		// case *ast.GotoStatement:
 		// 	err = i.ProcessGotoStatement(t)
@@ -240,6 +252,12 @@ func (i *Interpreter) ProcessFunctionSubroutine(sub *ast.SubroutineDeclaration, 
 }
 
 func (i *Interpreter) ProcessExpressionReturnStatement(stmt *ast.ReturnStatement) (value.Value, State, error) {
+	if stmt.ReturnExpression == nil {
+		return value.Null, NONE, exception.Runtime(
+			&stmt.GetMeta().Token,
+			"Functional subroutine must return a value, empty return statement found",
+		)
+	}
 	val, err := i.ProcessExpression(stmt.ReturnExpression)
 	if err != nil {
 		return value.Null, NONE, errors.WithStack(err)
